@@ -31,7 +31,7 @@ ASSUMPTIONS = [
     "regular files and directories only; names without control characters, U+2028/2029 excluded here (C10 covers them)",
 ]
 BUDGET = {"quick": (240, 4), "thorough": (12000, 16)}
-REQUIRED = ["nested", "prior_generation", "sf", "sf_folder", "empty_file", "empty_dir", "special_name", "-n"]
+REQUIRED = ["nested", "prior_generation", "sf", "sf_folder", "empty_file", "empty_dir", "special_name", "-n", "prefix_sibling", "big_file"]
 
 CFG = {
     "kinds": ["create"] * 4 + ["create_sf"] * 2 + ["put_new", "put_new", "overwrite", "rm", "rmtree", "mkdir", "mv"],
@@ -42,8 +42,26 @@ CFG = {
 }
 
 
+@st.composite
+def _scn(draw):
+    scn = draw(st.one_of(hist.scenarios(CFG), hist.scenarios(dict(CFG, final=["create_sf"]))))
+    extra = draw(st.sampled_from([None, None, None, "prefix", "prefix", "big"]))
+    if extra == "prefix":
+        # a nested history whose folder name is a prefix of a sibling folder / file that has no history of its own
+        base = draw(st.sampled_from(["Clips", "s", "A", "Reel1"]))
+        sib = draw(st.sampled_from(["_proxy", "2", "0", ".txt", " b"]))
+        if base not in scn["tree"] and base + sib not in scn["tree"]:
+            scn["tree"][base] = {"in.mov": "inside " + base}
+            scn["tree"][base + sib] = {"next.mov": "beside"} if draw(st.booleans()) else "a file beside"
+            scn["steps"] = [{"op": "create", "root": base, "formats": draw(gen.formats(2)), "flags": []}] + scn["steps"]
+    elif extra == "big":
+        # one file beyond the 1 MiB read chunk, size not a multiple of it
+        scn["tree"]["big.bin"] = [draw(st.binary(min_size=1, max_size=5)).hex(), (1 << 20) + draw(st.integers(1, 300000))]
+    return scn
+
+
 def strategy(tier):
-    return st.one_of(hist.scenarios(CFG), hist.scenarios(dict(CFG, final=["create_sf"])))
+    return _scn()
 
 
 def check_paths_form(path, res):
@@ -137,6 +155,11 @@ def run_case(scn, ctx):
                     feats.add("sf")
                 if "-n" in step.get("flags", ()):
                     feats.add("-n")
+                if any(len(w.files[f]) > (1 << 20) for f in files):
+                    feats.add("big_file")
+                hr = w.history_roots()
+                if any(r != root and w.under(r, root) and any(x != r and x.startswith(r) and not x.startswith(r + "/") and posixpath.dirname(x) == posixpath.dirname(r) for x in list(w.files) + list(w.dirs)) for r in hr):
+                    feats.add("prefix_sibling")
                 for f in feats:
                     ctx.event(f)
                 if dirs and len(files) >= 3 and feats - {"-n"}:
